@@ -56,7 +56,7 @@ class ELsb0(Engine):
                    'generators (findall, cut) are consumed inside the event that creates them; a generator resumed '
                    'across a toggle has no mirror semantics and is left to C20']
     expected_probes = ('op_under_lsb0', 'op_after_toggle_back', 'mutator_under_lsb0', 'long_data_search',
-                       'negative_step', 'bytealigned_search', 'toggle_with_live_objects', 'stream_read_under_lsb0')
+                       'negative_step', 'bytealigned_search', 'toggle_with_live_objects', 'stream_read_under_lsb0', 'bytealigned_default_set', 'pack_same_format_again')
 
     def plan(self, tier, base_seed):
         runs = 6000 if tier == 'quick' else 600000
@@ -83,6 +83,9 @@ class ELsb0(Engine):
         cfg['ents'] = ents
         cfg['lsb0'] = g.chance(0.6)
         cfg['toggle_w'] = g.pick([0, 1, 2, 4])
+        # a second option in force at the same time: the module default for bytealigned (set alike in both replicas)
+        cfg['bytealigned'] = g.chance(0.2)
+        cfg['ba_w'] = g.pick([0, 0, 1, 2])
         return cfg
 
     # -------------------------------------------------------------------------------------------------
@@ -103,6 +106,9 @@ class ELsb0(Engine):
         if not self.ents:
             self.ents.append(['Bits', self.L.pkg.Bits(), self.M.pkg.Bits()])
         self.toggled = False
+        self._last_pack = None
+        for R in (self.L, self.M):
+            R.pkg.options.bytealigned = bool(cfg.get('bytealigned'))
         return {'lsb0': self.lsb0, 'n': len(self.ents)}
 
     def cleanup(self):
@@ -119,6 +125,8 @@ class ELsb0(Engine):
             want = (not self.lsb0) if g.chance(0.9) else self.lsb0
             # the option is documented as a bool; truthy / falsy ints are what callers write just as often
             return {'k': 'toggle', 'value': want if g.chance(0.7) else int(want)}
+        if g.r.random() < 0.03 * cfg.get('ba_w', 0):
+            return {'k': 'bytealigned', 'value': g.chance(0.6)}
         for _ in range(8):
             ev = self._gen_op(g)
             if not cfg['avoid'] or self.trigger(ev) == '-':
@@ -263,6 +271,10 @@ class ELsb0(Engine):
             ev['pos'] = g.pos(n)
         elif op == 'unpack':
             ev['fmt'] = [g.pick(['bits:2', 'bin:3', 'uint:4', 'bits:8', 'uint:1', 5, 'bin', 'bits']) for _ in range(g.int(1, 4))]
+        elif op == 'pack' and self._last_pack is not None and g.chance(0.5):
+            # the very same format string again (new values): a parsed format is memoised, and must come back unchanged
+            ev['toks'] = [[kind, w, g.bits(w) if kind not in ('hex',) else bits] for kind, w, bits in self._last_pack]
+            self.probe('pack_same_format_again')
         elif op == 'pack':
             toks = []
             for _ in range(g.int(1, 4)):
@@ -272,6 +284,7 @@ class ELsb0(Engine):
                     w = 4 * g.int(1, 3)
                 toks.append([kind, w, g.bits(w)])
             ev['toks'] = toks
+            self._last_pack = toks
         return ev
 
     # -------------------------------------------------------------------------------------------------
@@ -525,6 +538,11 @@ class ELsb0(Engine):
         k = ev.get('k')
         if k == 'toggle':
             return self._toggle(ev)
+        if k == 'bytealigned':
+            for R in (self.L, self.M):
+                R.pkg.options.bytealigned = bool(ev.get('value'))
+            self.probe('bytealigned_default_set')
+            return {'bytealigned': bool(ev.get('value'))}, []
         if k != 'op':
             return {'skip': k}, []
         incs = []
